@@ -392,3 +392,50 @@ package sipsp
 //@   inline
 //@   modifies *c
 //@   ensures[C12,*] "zero": *c == PPAIs{}
+
+// ---- IPv4 text (C20) ----
+
+//@ func ip4At(buf, p) (r)
+//@   uninterpreted buf p +len
+//@   ensures r == ip4AtDef(buf, p)
+
+//@ func ip4End(buf, p) (r)
+//@   uninterpreted buf p +len
+//@   ensures r == ip4EndDef(buf, p)
+
+//@ func IP4Prefix(buf, dst) (ok, n, err)
+//@   requires bufOK(buf) && blockSep(buf, dst)
+//@   modifies dst[*]
+//@   loop 0 "for ; o < len(buf); o++"
+//@     invariant 0 <= o && o <= len(buf) && 0 <= pos && pos <= 3 && 0 <= digits && digits <= 3
+//@     invariant[C20] grpsOK(buf, 0, pos) && o-digits == grpStart(buf, 0, pos) && digsAt(buf, o-digits, digits)
+//@     invariant[C20] int(ip[pos]) == dval(buf, o-digits, digits) && dval(buf, o-digits, digits) <= 255
+//@     invariant[C20] (pos < 1 || int(ip[0]) == dval(buf, grpStart(buf, 0, 0), runLen4(buf, grpStart(buf, 0, 0)))) &&
+//@                    (pos < 2 || int(ip[1]) == dval(buf, grpStart(buf, 0, 1), runLen4(buf, grpStart(buf, 0, 1)))) &&
+//@                    (pos < 3 || int(ip[2]) == dval(buf, grpStart(buf, 0, 2), runLen4(buf, grpStart(buf, 0, 2))))
+//@     cases pos 0 3
+//@     cases digits 0 3
+//@     decreases len(buf) - o
+//@   ensures 0 <= n && n <= len(buf)
+//@   ensures err == ErrHdrOk || err == ErrHdrMoreValues || err == ErrHdrBadChar || err == ErrHdrBad || err == ErrHdrMoreBytes
+//@   ensures[C20] "accept-iff": ok <==> ip4At(buf, 0)
+//@   ensures[C20] "end": ok ==> n == ip4End(buf, 0)
+//@   ensures[C20] "what-follows": ok ==> (err == ErrHdrOk <==> n == len(buf)) && (err == ErrHdrMoreValues <==> (n < len(buf) && isDigit(buf[n]))) &&
+//@                    (err == ErrHdrBadChar <==> (n < len(buf) && !isDigit(buf[n])))
+//@   ensures[C20] "bytes": ok && len(dst) >= 4 ==> int(dst[0]) == dval(buf, grpStart(buf, 0, 0), runLen4(buf, grpStart(buf, 0, 0))) &&
+//@                    int(dst[1]) == dval(buf, grpStart(buf, 0, 1), runLen4(buf, grpStart(buf, 0, 1))) &&
+//@                    int(dst[2]) == dval(buf, grpStart(buf, 0, 2), runLen4(buf, grpStart(buf, 0, 2))) &&
+//@                    int(dst[3]) == dval(buf, grpStart(buf, 0, 3), lastLen(buf, grpStart(buf, 0, 3)))
+//@   ensures[C20] "not-yet": !ok ==> (err == ErrHdrMoreBytes <==> n == len(buf)) && (err == ErrHdrBad || err == ErrHdrMoreBytes)
+
+//@ func ContainsIP4(buf, dst) (ok, o, nxt)
+//@   requires bufOK(buf) && blockSep(buf, dst)
+//@   modifies dst[*]
+//@   loop 0 "for i := 0; i < len(buf);"
+//@     invariant 0 <= i && i <= len(buf)
+//@     decreases len(buf) - i
+//@   loop 1 "for o := offs; o < dOffs; o++"
+//@     invariant 0 <= i && i <= dOffs && dOffs < len(buf) && 0 <= offs && offs <= o && o <= dOffs && dOffs-offs <= 3 && (offs == i || offs == dOffs-3)
+//@     decreases dOffs - o
+//@   ensures ok ==> 0 <= o && o <= len(buf) && 0 <= nxt && o+nxt <= len(buf)
+//@   ensures[C20] "sound": ok ==> ip4At(buf, o) && nxt == ip4End(buf, o)
